@@ -401,8 +401,10 @@ def ite(c, a, b):
             r = VSeq(z3.If(c, 0, b.len), b.elem, b.etype)
         else:
             r = VSeq(z3.If(c, a.len, b.len), lambda i: ite(c, a.elem(i), b.elem(i)), a.etype)
-        if a.kind is not None and b.kind is not None:       # list / tensor / array tag survives a merge
-            r.kind = a.kind if a.kind.eq(b.kind) else z3.If(c, a.kind, b.kind)
+        if a.kind is not None or b.kind is not None:        # list / tensor / array tag survives a merge (no tag = python list = 0)
+            ka = a.kind if a.kind is not None else z3.IntVal(0)
+            kb = b.kind if b.kind is not None else z3.IntVal(0)
+            r.kind = ka if ka.eq(kb) else z3.If(c, ka, kb)
         return r
     if isinstance(a, VRec) and isinstance(b, VRec) and a.fields.keys() == b.fields.keys():
         return VRec(a.name, {f: ite(c, a.fields[f], b.fields[f]) for f in a.fields})
